@@ -445,7 +445,7 @@ func c15Gen(tier string, rng *rand.Rand, emit func(interface{})) {
 	// The model evaluates tricube weights exactly: (1-(a/d)^3)^3 has a denominator d^9, so the bulk of
 	// the cases keeps x, xs on a coarse dyadic grid (d has <= 12 significant bits); a minority uses
 	// full-mantissa abscissae and one-ulp neighbours of the cut-over points with small windows.
-	for it := 0; it < 260*mul; it++ {
+	for it := 0; it < 220*mul; it++ {
 		deg := rng.Intn(3)
 		n := 3 + rng.Intn(38)
 		if rng.Intn(3) == 0 {
